@@ -675,7 +675,7 @@ func genFingerOrder() {
 		"os.Remove", "os.Open", "checker.checksum", "checker.checksumFilePath", "checker.timestampFilePath", // (checker: the receiver)
 		"Globs", "glob", "collectKeys", "getMaxTime", "anyFileNewerThan", "time.Now", "normalizeFilename",
 		"filepath.Base", "filepath.Rel", "filepath.ToSlash", "filepath.Join", "io.CopyBuffer", "xxh3.New", "(xxh3.New).Sum128", "sort.Strings",
-		"binary.BigEndian.PutUint64", "(xxh3.New·1).Write", "(xxh3.New·1).Sum64", // the second hasher of ChecksumChecker.checksum: the length table
+		"binary.Write", "(xxh3.New·1).Sum64", // the second hasher of ChecksumChecker.checksum: the length table
 		"execext.ExpandFields", "execext.RunCommand", "(&CheckerConfig{}).statusChecker.IsUpToDate",
 		"(&CheckerConfig{}).sourcesChecker.IsUpToDate", "NewSourcesChecker", "NewStatusChecker", "t.Name",
 		"strings.TrimSpace", "append", "stateFilename", "checksumFilename", "fmt.Sprintf", "xxh3.HashString",
@@ -725,7 +725,7 @@ func genFingerOrder() {
 	//   checksumName: the statement that calls filepath.Rel, the assignment taken when that fails (the
 	//     `if` on its error variable), the statement that applies filepath.ToSlash, and the reader
 	//     handed to the first io.CopyBuffer;
-	//   checksumFeed: in source order every io.CopyBuffer, every binary.BigEndian.PutUint64 and every
+	//   checksumFeed: in source order every io.CopyBuffer, every binary.Write and every
 	//     Write / WriteString on a local hasher, printed whole (an assignment from such a call is printed
 	//     as the assignment, so that the byte count of the content copy is the placeholder the length
 	//     record uses); then the expression returned with a nil error.
@@ -736,7 +736,7 @@ func genFingerOrder() {
 		var feed []string
 		fed := func(ce *ast.CallExpr) bool {
 			switch c := src(ce.Fun); {
-			case c == "io.CopyBuffer", c == "binary.BigEndian.PutUint64":
+			case c == "io.CopyBuffer", c == "binary.Write":
 				return true
 			default:
 				if se, ok := ce.Fun.(*ast.SelectorExpr); ok && (se.Sel.Name == "Write" || se.Sel.Name == "WriteString") {
@@ -744,6 +744,16 @@ func genFingerOrder() {
 				}
 			}
 			return false
+		}
+		// in the feed facts a hasher (a local made by xxh3.New) and the sum taken from one are printed by
+		// their ORIGIN also in argument position: `(xxh3.New)` the first, `(xxh3.New·1)` the second
+		byOrigin := func(n ast.Node) string {
+			return f.textWith(n, func(o *ast.Object) (string, bool) {
+				if org := f.origin(o); strings.Contains(org, "xxh3.New") {
+					return "(" + org + ")", true
+				}
+				return "", false
+			})
 		}
 		done := map[*ast.CallExpr]bool{}
 		ast.Inspect(fd, func(n ast.Node) bool {
@@ -758,7 +768,7 @@ func genFingerOrder() {
 							slash = f.text(x)
 						case fed(ce):
 							done[ce] = true
-							feed = append(feed, "feed: "+f.text(x))
+							feed = append(feed, "feed: "+byOrigin(x))
 						}
 					}
 				}
@@ -767,7 +777,7 @@ func genFingerOrder() {
 					hashed = f.text(x.Args[1])
 				}
 				if fed(x) && !done[x] {
-					feed = append(feed, "feed: "+f.text(x))
+					feed = append(feed, "feed: "+byOrigin(x))
 				}
 			case *ast.IfStmt:
 				if rel != "" && fallback == "" && f.mentionsErr(x.Cond) && len(x.Body.List) == 1 {
@@ -777,7 +787,7 @@ func genFingerOrder() {
 				}
 			case *ast.ReturnStmt:
 				if len(x.Results) == 2 && src(x.Results[1]) == "nil" {
-					feed = append(feed, "sum: "+f.text(x.Results[0]))
+					feed = append(feed, "sum: "+byOrigin(x.Results[0]))
 				}
 			}
 			return true
